@@ -327,7 +327,7 @@ async def _assert_preconditions_async(
                 check = await contract.condition(**condition_kwargs)
             else:
                 check_or_coroutine = contract.condition(**condition_kwargs)
-                if inspect.iscoroutine(check_or_coroutine):
+                if inspect.isawaitable(check_or_coroutine):
                     check = await check_or_coroutine
                 else:
                     check = check_or_coroutine
@@ -426,7 +426,7 @@ async def _capture_old_async(
             old_as_mapping[snap.name] = await snap.capture(**capture_kwargs)
         else:
             captured_or_coroutine = snap.capture(**capture_kwargs)
-            if inspect.iscoroutine(captured_or_coroutine):
+            if inspect.isawaitable(captured_or_coroutine):
                 captured = await captured_or_coroutine
             else:
                 captured = captured_or_coroutine
@@ -491,7 +491,7 @@ async def _assert_postconditions_async(
             check = await contract.condition(**condition_kwargs)
         else:
             check_or_coroutine = contract.condition(**condition_kwargs)
-            if inspect.iscoroutine(check_or_coroutine):
+            if inspect.isawaitable(check_or_coroutine):
                 check = await check_or_coroutine
             else:
                 check = check_or_coroutine
